@@ -13,7 +13,7 @@ MNV == 144
 InA(k) == (k - 1) % 4
 InB(k) == FromPat(((k - 1) \div 4) % 4, Signed(2))
 PP(k) == ((k - 1) \div 16) % 3
-MFsmPrev(k) == (((k - 1) \div 48) % 3) + 1
+MFsmPrev(f, k) == IF f = 1 THEN (((k - 1) \div 48) % 3) + 1 ELSE (((k - 1) \div 144) % 3) + 1
 MPrevOf(s, k) == CASE PP(k) = 0 -> MSigInit[s]
                    [] PP(k) = 1 -> Norm(-1, MSigSh[s])
                    [] PP(k) = 2 -> Norm(2, MSigSh[s])
@@ -65,6 +65,9 @@ RhsLhs == {"cm3", "a", "wide"}
 CondsOne == {"a0"}
 NoTests == {}
 TargetsFsm == { [t |-> Sg(1), d |-> "comb"], [t |-> Sg(2), d |-> "sync"] }
+NoConds == {}
+TargetsOne == { [t |-> Sg(1), d |-> "comb"] }
+NoInitArg == {0}
 NoStates == {}
 ThreeStates == {1, 2, 3}
 TwoStates == {1, 2}
